@@ -122,7 +122,11 @@ func checkC14Case(ctx *core.Ctx, i int, rep *core.Report) {
 		if size > 600 {
 			step = size / 200
 		}
-		for j := 0; j < size; j += step { // a source that fails after j bytes (j == size would be a complete source)
+		js := []int{size} // j == size: every declared byte is delivered, then an error instead of io.EOF
+		for j := 0; j < size; j += step {
+			js = append(js, j)
+		}
+		for _, j := range js { // a source that fails after j bytes
 			j := j
 			vs = append(vs, variant{fmt.Sprintf("source fails after %d of %d bytes", j, size), func() (io.Reader, uint64) {
 				return &iofault.FailingReader{Data: a.Data, N: j}, uint64(size)
